@@ -268,7 +268,14 @@ func (vc *VC) get(st *State, key string) Term {
 	return t
 }
 
-func (vc *VC) set(st *State, key string, t Term) { st.v[key] = t }
+func (vc *VC) set(st *State, key string, t Term) {
+	if len(t) > 160 && vc.inQuant == 0 && vc.keySort[key] != "" {
+		n := vc.fresh("s."+key, vc.keySort[key])
+		vc.assumeRaw(tEq(n, t))
+		t = n
+	}
+	st.v[key] = t
+}
 
 func (vc *VC) ensureKey(key, sort string) {
 	if vc.keySort[key] == "" {
@@ -522,6 +529,16 @@ func (vc *VC) wellTypedAt(st *State, t types.Type, s []Term, depth int) Term {
 		c := []Term{vc.isAlloc(st, s[0])}
 		if vc.p.rootOnly(u.Elem()) {
 			c = append(c, tEq(s[1], "0"), tEq(sx("dtype", s[0]), tInt(int64(vc.p.typeID(u.Elem())))))
+		} else if _, isSt := u.Elem().Underlying().(*types.Struct); isSt {
+			if _, named := types.Unalias(u.Elem()).(*types.Named); named {
+				if hs := vc.p.holderTypes(u.Elem()); hs != nil {
+					var alts []Term
+					for _, h := range hs {
+						alts = append(alts, tEq(sx("dtype", s[0]), tInt(int64(vc.p.typeID(h)))))
+					}
+					c = append(c, tOr(alts...), tLe("0", s[1]))
+				}
+			}
 		}
 		return tOr(tAnd(tEq(s[0], "0"), tEq(s[1], "0")), tAnd(c...))
 	case *types.Slice:
